@@ -160,53 +160,72 @@ def rule_segmerge(ctx):
                     return int(side.a[0].a[1].a[0])
         return None
 
+    extra = []  # atoms outside the three comparisons: (term, implied component or None)
+
     def formula(t):
-        """python callable d -> bool (d: dict component -> differs), or None if outside the recognised forms"""
+        """python callable d -> bool over d[0..2] = "component k differs" and d[('x', i)] = value of extra atom i"""
         if t.op == "un" and t.a[0] == "not":
             g = formula(t.a[1])
-            return None if g is None else (lambda d, g=g: not g(d))
+            return lambda d, g=g: not g(d)
         if t.op == "bool":
             gs = [formula(x) for x in t.a[1:]]
-            if any(g is None for g in gs):
-                return None
             if t.a[0] == "and":
                 return lambda d, gs=gs: all(g(d) for g in gs)
             return lambda d, gs=gs: any(g(d) for g in gs)
         if t.op == "call" and call_name(t) in ("np.any", "np.all") and len(t.a[1]) == 1 and t.a[1][0].op == "cmp":
             y = t.a[1][0]
             k = comp_of(y)
-            if k is None:
-                return None
-            if call_name(t) == "np.any" and y.a[0] == "!=":
+            if k is not None and call_name(t) == "np.any" and y.a[0] == "!=":
                 return lambda d, k=k: d[k]
-            if call_name(t) == "np.all" and y.a[0] == "==":
+            if k is not None and call_name(t) == "np.all" and y.a[0] == "==":
                 return lambda d, k=k: not d[k]
-            return None
         if t.op == "cmp" and t.a[0] in ("!=", "=="):
             k = comp_of(t)
-            if k is None:
-                return None
-            if t.a[0] == "!=":
-                return lambda d, k=k: d[k]
-            return lambda d, k=k: not d[k]
-        return None
+            if k is not None:
+                if t.a[0] == "!=":
+                    return lambda d, k=k: d[k]
+                return lambda d, k=k: not d[k]
+        # `prev is None` on the previous-chord variable (initialised to None): true only before the first row, where
+        # the comparison with the current chord differs anyway
+        implied = None
+        if t.op == "cmp" and t.a[0] in ("is", "isnot") and any(tm.is_const(z, None) for z in t.a[1:]):
+            lv = [z for z in t.a[1:] if z.op == "loopvar"]
+            if lv:
+                for k in (0, 1, 2):
+                    # which component is compared with this loop variable anywhere in the condition?
+                    for c0, _p0 in conds_app:
+                        for y in tm.walk(c0):
+                            if y.op == "cmp" and any(z is lv[0] for z in y.a[1:]) and comp_of(y) == k:
+                                implied = (k, t.a[0] == "is")
+        idx = len(extra)
+        extra.append((t, implied))
+        return lambda d, idx=idx: d[("x", idx)]
 
     good = False
     why = "fusion condition not recognised"
     if conds_app:
-        fs = [(formula(c), p) for c, p in conds_app]
-        if all(g is not None for g, _ in fs):
-            import itertools
+        import itertools
 
-            good = True
-            for bits in itertools.product([False, True], repeat=3):
-                d = {0: bits[0], 1: bits[1], 2: bits[2]}
-                starts = all(g(d) == p for g, p in fs)
-                if starts != (bits[0] or bits[1] or bits[2]):
-                    good = False
-            why = "a new interval starts iff root, bitmap or bass differs from the previous chord (truth table over the three comparisons)" if good else "a new interval does not start exactly when root, bitmap or bass differs (condition %s)" % "; ".join(tm.show(c, 3) for c, _ in conds_app)
-        else:
-            raise AnalysisError(R, "merge_chord_intervals: fusion condition is outside the recognised comparison forms: %s" % "; ".join(tm.show(c, 3) for c, _ in conds_app))
+        fs = [(formula(c), p) for c, p in conds_app]
+        good = True
+        witness = None
+        for bits in itertools.product([False, True], repeat=3 + len(extra)):
+            d = {0: bits[0], 1: bits[1], 2: bits[2]}
+            consistent = True
+            for i_, (t_, imp) in enumerate(extra):
+                d[("x", i_)] = bits[3 + i_]
+                if imp is not None:
+                    k, when_true = imp
+                    is_none = bits[3 + i_] if when_true else (not bits[3 + i_])
+                    if is_none and not d[k]:
+                        consistent = False
+            if not consistent:
+                continue
+            starts = all(g(d) == p for g, p in fs)
+            if starts != (bits[0] or bits[1] or bits[2]):
+                good = False
+                witness = d
+        why = "a new interval starts iff root, bitmap or bass differs from the previous chord (truth table over the three comparisons%s)" % (" and %d auxiliary test(s)" % len(extra) if extra else "") if good else "a new interval does not start exactly when root, bitmap or bass differs: condition %s disagrees for root/bitmap/bass differs = %s%s" % ("; ".join(tm.show(c, 3) for c, _ in conds_app), [witness[0], witness[1], witness[2]], (" with %s = %s" % (tm.show(extra[0][0], 2), witness[("x", 0)])) if extra else "")
     yield ob(R, f, "chord.merge_chord_intervals:fusion-condition", good, why, node=app[0].node)
     # the previous chord is updated when a new interval starts
     new_int = app[0].val.a[0] if app[0].val.op == "tuple" else None
